@@ -264,6 +264,38 @@ def rule_conflicts(ctx: Ctx, rid="C07.LALR-CONFLICTS"):
     ctx.rep.extra["lalr"] = {"lr1_states": T.lr1_states, "lalr_states": len(T.states), "conflicts": len(T.conflicts)}
 
 
+def _layout_independent(ctx: Ctx, prod, variable):
+    """True when the production's action yields one and the same value (and never raises) for every text the
+    layout-variable tokens can have; None when that cannot be decided."""
+    from pyab_static import absint as A
+    pl = ctx.pipeline
+    vals = []
+    for s_ in prod.syms:
+        if s_ in ctx.grammar.nonterminals:
+            return None              # values of other productions flow in: decided by the syntactic reading only
+        if s_ in variable:
+            vals.append(A.Sym("rawtoken", s_))
+        else:
+            vals.append(pl.token_text(s_))
+
+    def job(it):
+        parser_obj = A.Obj(it.class_val(ctx.grammar.mod, ctx.grammar.cls), {})
+        pv = A.PVal(prod.syms, list(vals), prod.aliases)
+        return it.call(A.FuncVal(ctx.grammar.mod, prod.func, parser_obj), [pv], {})
+    try:
+        outs = A.run_forking(ctx.src, job, max_forks=64)
+    except (A.Unsupported, AnalysisError):
+        return None
+    results = []
+    for assumptions, res, it in outs:
+        if isinstance(res, A.RaiseSig):
+            return False
+        results.append(res)
+    first = results[0]
+    same = all((r_ == first) if not isinstance(r_, (A.Obj, A.AList)) else False for r_ in results[1:]) if len(results) > 1 else True
+    return True if same else False
+
+
 def _only_types_read(fn, slice_attr) -> bool:
     """Is this `p._slice` used only to read the *type* of its symbols (`p._slice[i].type`, or names unpacked from it
     that are only used as `<name>.type`)?"""
@@ -328,6 +360,14 @@ def rule_layout_free_values(ctx: Ctx, rid="C08.LAYOUT-FREE-VALUES"):
             if isinstance(x, ast.Starred) and dotted(x.value) == pname:
                 reads.append((x, f"*{pname}"))
         con = f"{GR}:{p}"
+        if reads:
+            # the text is read: does the action's result depend on it?  Interpret the action with the token's text opaque
+            # (any word of its pattern) under every outcome of the decisions that involve it
+            verdict = _layout_independent(ctx, p, variable)
+            if verdict is True:
+                ctx.rep.ok(rid, con, f"reads the text of {toks[0][1]} ({reads[0][1]}) but returns the same value whatever the spacing "
+                           "(abstract interpretation of the action over all decisions on the opaque text)", site=p.site)
+                continue
         if reads:
             x, what = reads[0]
             tk = toks[0][1]
